@@ -27,16 +27,21 @@ class InjectedFault(Exception):
     pass
 
 
-class FailAt:
-    """cloudf(lat, long): raises for the event with lat == k (events carry lat = index)."""
+FAULT_TYPES = [InjectedFault, IndexError, ValueError, KeyError, ZeroDivisionError, RuntimeError, FloatingPointError, LookupError, ArithmeticError, TypeError, AttributeError, OverflowError, AssertionError, OSError]
 
-    def __init__(self, k, top=-np.inf):
+
+class FailAt:
+    """cloudf(lat, long): raises for the event with lat == k (events carry lat = index).
+    The exception class varies (a handler written for one type must not swallow a failure)."""
+
+    def __init__(self, k, top=-np.inf, exc=InjectedFault):
         self.k = k
         self.top = top
+        self.exc = exc
 
     def __call__(self, lat, long):
         if self.k is not None and float(lat) == float(self.k):
-            raise InjectedFault(f"injected failure at event {self.k}")
+            raise self.exc(f"injected failure at event {self.k}")
         return self.top
 
 
